@@ -223,6 +223,26 @@ def run(chk):
                                                             wkind_terms=(key,)), key)
         chk.run(rule, SITE[eq_type], cfg, go, construct=f"{key} (weights replaced after construction)")
 
+    from ..lossenv import replaced_field_twin
+    for eq_type in ('ODE',):
+        cfg = {"loss": eq_type, "net": "PINN", "term": "ic", "initial_condition": "replaced after construction"}
+
+        def go(eq_type=eq_type):
+            mk = lambda t0: (lambda: SingleLoss(E, eq_type, 'PINN', d=2, m_u=2, terms=('ic',), ic_t0=t0))
+            return replaced_field_twin(mk(None), mk(K('t1')), 'initial_condition', term_keys=['initial_condition'])
+        chk.run("C05.R2", SITE[eq_type], cfg, go, construct="initial_condition (field replaced after construction)")
+
+    # weights: 0 at construction, replaced afterwards (nothing decided at construction from the weight's value survives)
+    for eq_type, term, rule, key in (('statio_PDE', 'norm', 'C05.R1', 'norm_loss'), ('ODE', 'ic', 'C05.R2', 'initial_condition'),
+                                     ('nonstatio_PDE', 'ic', 'C05.R2', 'initial_condition'), ('ODE', 'obs', 'C05.R3', 'observations'),
+                                     ('statio_PDE', 'obs', 'C05.R3', 'observations')):
+        cfg = {"loss": eq_type, "net": "PINN", "term": term, "loss_weights": "0 at construction, replaced afterwards"}
+
+        def go(eq_type=eq_type, term=term, key=key):
+            return replaced_field_twin(lambda: SingleLoss(E, eq_type, 'PINN', d=2, m_u=1, terms=(term,), weight_value=0),
+                                       lambda: SingleLoss(E, eq_type, 'PINN', d=2, m_u=1, terms=(term,)), 'loss_weights', term_keys=[key])
+        chk.run(rule, SITE[eq_type], cfg, go, construct=f"{key} (weight 0 at construction, replaced afterwards)")
+
     # ---------------- R4 the solution slice that the normalisation and observation terms select is the one the caller specified
     chk.rule("C05.R4", "the solution components entering the normalisation / observation terms are those given to the network "
                        "factory: None = all outputs, an integer k (0 included) = component k only, a slice = itself", floor=6)
